@@ -260,7 +260,7 @@ def record_linop(which, method, phase, crash_at, seed, tid):
 
 
 def crash_traces(ctx, thorough):
-    kinds = ["nn", "edit", "editnn", "mixed", "sib", "msib"]
+    kinds = ["nn", "edit", "editnn", "mixed", "sib", "msib", "msib3"]
     traces = []
     tid = [0]
 
